@@ -57,7 +57,7 @@ PROPS = {
     },
     "C12": {
         "level": "exploration",
-        "level_text": "every generated router (discovered from the source tree, count cross-checked against the file glob) x every method of its service descriptor, driven through the descriptor's own handlers with random requests and scripted fake backends (faults: backend status at any position, caller send error at message j, factory/fallback misses); registry histories by 1-3 tasks at the router's windows checked for linearizability against a map model; measured coverage of the (router, method) space, required complete in the thorough tier",
+        "level_text": "every generated router (discovered from the source tree, count cross-checked against the file glob) x every method of its service descriptor, driven through the descriptor's own handlers with random requests and scripted fake backends (faults: backend status at any position, caller send error at message j, factory/fallback misses); registry histories by 1-3 tasks at the router's windows checked for linearizability against a map model; the default-name interceptors also on their own, with streams of several requests; measured coverage of the (router, method) space, required complete in the thorough tier",
         "level_note": TRUST + "; porcupine for the registry; fake backends are typed sc-api clients over a recording grpc.ClientConnInterface. NOT decided: the textual clause that checked-in routers/wrappers are byte-for-byte what the generators produce - its behavioural consequence (every descriptor method is routed, none falls through to Unimplemented) is decided by the enumeration",
         "technique": "deterministic simulation: enumeration of (router, method) with seeded requests/response scripts/faults through the service descriptors + seeded schedules of registry operations with a porcupine linearizability check",
         "rule": ("route-forward: (router, method, request name, default-name interceptor, backend script, caller send error) from the decision tape; every run is non-trivial; distinct = distinct (router.method, target name) combinations. "
@@ -73,7 +73,7 @@ PROPS = {
     },
     "C13": {
         "level": "exploration",
-        "level_text": "seeded generation of joint call scripts for the four call shapes, each executed over a real gRPC server/client pair on bufconn (the reference, in a fake-clock bubble) and over wrap.ServerToClient with client and handler as scheduled tasks under several interleavings and fake-time advance for deadlines; normalised client transcripts compared",
+        "level_text": "seeded generation of joint call scripts for the four call shapes, each executed over a real gRPC server/client pair on bufconn (the reference, in a fake-clock bubble) and over wrap.ServerToClient with client and handler as scheduled tasks under several interleavings and fake-time advance for deadlines; normalised client transcripts compared; unary calls cancelled by a third party at any moment (client outcome and message isolation only)",
         "level_note": TRUST + "; google.golang.org/grpc v1.67.1 over bufconn as the oracle; scripts are causally ordered (every send meets a receiver, cancel/deadline only after a server-to-client sync) so that the reference transcript does not depend on scheduling; each reference is run twice and discarded if unstable; headers/trailers compared only where gRPC itself is deterministic about them",
         "technique": "deterministic simulation of client/handler tasks over the wrapper + differential comparison of client transcripts against real gRPC (bufconn) executions of the same scripted programs",
         "rule": ("scripts (shape, 0-5 rounds of C>S / S>C / SendHeader / SetHeader / SetTrailer / half-close, terminal: return OK / status / client cancel / deadline, mutate-after-send) and the task interleaving come from the decision tape; every run is non-trivial (two parties); distinct = distinct (script, schedule) fingerprints"),
@@ -104,7 +104,7 @@ PROPS = {
     },
     "C19": {
         "level": "exploration",
-        "level_text": "seeded exploration of operation sequences through Model and through the ElectricApi/MemorySettingsApi server, first by one caller with per-call postconditions, then by 2-4 concurrent callers that are parked inside the underlying resource operations while holding the model mutex; the documented invariants at every quiescent point, start-time stamping against the injected clock, streams folded against Modes()/ActiveMode()",
+        "level_text": "seeded exploration of operation sequences through Model and through the ElectricApi/MemorySettingsApi server, first by one caller with per-call postconditions, then by 2-4 concurrent callers that are parked inside the underlying resource operations while holding the model mutex; the documented invariants at every quiescent point, a concurrent clear must return a mode marked normal, start-time stamping against the injected clock, streams folded against Modes()/ActiveMode()",
         "level_note": TRUST + "; set-active is documented not to stamp and is not required to; start times are checked against the injected clock's window of the call",
         "technique": "deterministic simulation (seeded scheduler, gates on the model mutex and hooks inside the underlying resources) + invariant and postcondition oracles",
         "rule": RULE_SCHED,
@@ -143,7 +143,7 @@ PROPS = {
             {"name": "bp-slow", "quick": 20000, "thorough": 3000000, "thorough_time": 120},
         ],
         "require_hits": ["stall", "abandon", "advance", "cancel"],
-        "assumptions": ["subscriptions are opened before the writers start (subscribe/commit races are C03's subject)"],
+        "assumptions": ["the subscriptions judged for no-wait and loss are opened before the writers start; those that arrive or leave during the writes are judged for validity and convergence only"],
     },
     "C10": {
         "level": "fault_enumeration",
@@ -161,7 +161,7 @@ PROPS = {
     },
     "C04": {
         "level": "exploration",
-        "level_text": "seeded exploration of single-writer histories (successful and failing writes, write times, clock jumps) against 1-3 backpressured consumers whose pace is decided by the scheduler; every received stream compared event by event with the edit script derived from the reference model",
+        "level_text": "seeded exploration of single-writer histories (successful and failing writes, write times, clock jumps) against 1-3 backpressured consumers whose pace is decided by the scheduler; every received stream compared event by event with the edit script derived from the reference model; plus a subscriber that arrives while the writer is at work, whose stream must be the seed after j writes followed by exactly the script of the rest for an admissible j",
         "level_note": TRUST + "; reference model of appendix A; change times are checked against the injected clock's [invoke, return] window of the write (exactly against WithWriteTime)",
         "technique": "deterministic simulation (seeded scheduler, consumer pace = schedule) + expected edit script derived from the writer log through an executable reference model",
         "rule": RULE_SCHED,
@@ -170,7 +170,7 @@ PROPS = {
             {"name": "script-coll", "quick": 40000, "thorough": 3000000, "thorough_time": 200},
         ],
         "require_hits": ["clock-jump", "bus.send.each", "collection.sub.listen", "value.sub.listen"],
-        "assumptions": ["the writer's operations never overlap each other or a Pull call (as in the statement)", "with an equivalence configured an event whose projected value equals the previous one may be suppressed or delivered"],
+        "assumptions": ["the writer's operations never overlap each other; the subscribers judged event by event are opened between writes, the arriving one at any moment", "with an equivalence configured an event whose projected value equals the previous one may be suppressed or delivered"],
     },
     "C08": {
         "level": "exploration",
@@ -202,7 +202,7 @@ PROPS = {
     },
     "C02": {
         "level": "exploration",
-        "level_text": "seeded exploration of 2-4 writers interleaved at every hooked window of the optimistic read / change / lock / save / publish sequence; every history checked for linearizability against the reference model; evidence over sampled schedules",
+        "level_text": "seeded exploration of 2-4 writers interleaved at every hooked window of the optimistic read / change / lock / save / publish sequence; every history checked for linearizability against the reference model; trait-level read-modify-write (count deltas, enter/leave totals) and a trait whose writes continue in a goroutine of their own (brightness fades as scheduled tasks, clients calling while a fade ticks: an acknowledged later write is never overwritten); evidence over sampled schedules",
         "level_note": TRUST + "; porcupine v1.3.0 as linearizability checker; the reference model of DESIGN.md appendix A (validated against the implementation by C01)",
         "technique": "deterministic simulation (seeded scheduler over simhook windows) + porcupine linearizability check against an executable reference model + conservation checks",
         "rule": RULE_SCHED,
